@@ -140,6 +140,15 @@ def directed_packages():
         data = P.simple_package((lst % 'in the body') + ((dat % '2024') if 'N1' in cauto else ''), autostyles=cauto,
                                 styles_auto='<style:page-layout style:name="pm1"/>' + sauto, masterstyles=master)
         out.append((label, data))
+    # a colliding automatic style name (the loader renames one and follows the references) next to references that do not
+    # collide and are written with white space of their own: kept character for character
+    t1 = '<style:style style:name="T1" style:family="text"><style:text-properties fo:font-weight="%s"/></style:style>'
+    common = ''.join('<style:style style:name="Cls%d" style:family="paragraph"/>' % k for k in (1, 2, 3))
+    master = ('<style:master-page style:name="Standard" style:page-layout-name="pm1"><style:header><text:p text:class-names="Cls1  Cls2&#10; Cls3"><text:span text:style-name="T1">h</text:span></text:p>'
+              '<text:p text:class-names=" Cls2&#9;Cls1 ">i</text:p></style:header></style:master-page>')
+    out.append(('a collision, and name lists with white space of their own',
+                P.simple_package('<text:p text:class-names="Cls3   Cls1"><text:span text:style-name="T1">b</text:span></text:p>', autostyles=t1 % 'bold', styles=common,
+                                 styles_auto='<style:page-layout style:name="pm1"/>' + t1 % 'normal', masterstyles=master)))
     return out
 
 def run_one(ctx, d, refattrs, data, case):
